@@ -457,3 +457,12 @@ def import_version(ctx):
                     'an imported non-version-1 transaction is stored and reloaded as version 1: different id and serialization')
         if vs.get('rt.version') == 't.version':
             ctx.require(vs.get('rt.version_int') == 't.version_int', q, 'version_int is copied from `%s`' % vs.get('rt.version_int'), node)
+
+
+@PROP.obligation('C08.loop-fresh')
+def loop_fresh(ctx):
+    """Ledger updates run in per-output / per-input / per-key loops (utxos_update, transactions_update, _balance_update, store, delete):
+    in wallets.py no variable that is assigned only inside such a loop is read on a path of an iteration that did not assign it - the
+    row, key or amount written for one item is never the one left over from the previous item."""
+    from .common_loopfresh import loop_fresh as run
+    run(ctx, [W], 'the spent flag / key / amount of one output is written with the data of the previous one')
